@@ -370,10 +370,12 @@ def run_case(case):
             argv = [BIN, "checkpoint", preset, "--hook-input", "stdin" if via_stdin else text]
             if not via_stdin and len(text) > 100000:
                 via_stdin = True; argv[-1] = "stdin"
-            pr = run(argv, cwd, w.env(), input=(raw if raw is not None else text.encode("utf-8", "surrogatepass")) if via_stdin else None, timeout=60)
+            pr = run_hook(argv, cwd, w.env(), (raw if raw is not None else text.encode("utf-8", "surrogatepass")) if via_stdin else None)
             what = dict(preset=preset, how=how, path_class=fclass, layout=layout, cwd=cwd.replace(w.root, "<ROOT>"), stdin=via_stdin, payload=(text or repr(raw))[:300])
-            if pr.rc == -999:
-                viol.append(dict(kind="C20/watchdog", **what))
+            if pr.rc == -998:
+                viol.append(dict(kind="C20/hook-blocked-for-ever", note="after 12 s the process was asleep and had used no CPU time for 2 s (logical progress, not wall clock)", **what))
+            elif pr.rc == -999:
+                return dict(index=index, viol=[], stats=stats, sig="", nsigs=[], log=[], nontrivial=False, inconclusive="watchdog: hook still busy after 60 s (%s)" % preset, sample=dict(last=what))
             elif pr.rc != 0:
                 viol.append(dict(kind="C20/nonzero-exit" if pr.rc > 0 else "C20/killed-by-signal", rc=pr.rc, stderr=pr.stderr[-300:], **what))
             if b"panicked at" in pr.err:
@@ -389,6 +391,37 @@ def run_case(case):
                     sample=dict(layout=layout, last=what))
     finally:
         w.destroy()
+
+
+def run_hook(argv, cwd, env, data):
+    """Run one hook invocation. A hook that never returns fails the agent, but a wall-clock limit alone is no verdict on a loaded
+    machine: after 12 s the process is looked at - asleep (state S) with its CPU time not advancing over 2 s means it is blocked
+    (rc -998, a violation); still computing means slow (it gets 60 s in all, then rc -999 = inconclusive)."""
+    import time
+    from ..world import Proc
+    p = subprocess.Popen(argv, cwd=cwd, env=env, stdin=subprocess.PIPE if data is not None else subprocess.DEVNULL, stdout=subprocess.PIPE, stderr=subprocess.PIPE)
+
+    def cpu():
+        try:
+            f = open("/proc/%d/stat" % p.pid).read().rsplit(")", 1)[1].split()
+            return f[0], int(f[11]) + int(f[12])
+        except (OSError, IndexError, ValueError):
+            return "?", -1
+    try:
+        out, err = p.communicate(input=data, timeout=12)
+        return Proc(p.returncode, out, err, argv)
+    except subprocess.TimeoutExpired:
+        pass
+    st1, c1 = cpu(); time.sleep(2); st2, c2 = cpu()
+    if st1 == "S" and st2 == "S" and c1 == c2 and c1 >= 0:
+        p.kill(); out, err = p.communicate()
+        return Proc(-998, out, err + b"\n[verif: blocked, no progress]", argv)
+    try:
+        out, err = p.communicate(timeout=46)
+        return Proc(p.returncode, out, err, argv)
+    except subprocess.TimeoutExpired:
+        p.kill(); out, err = p.communicate()
+        return Proc(-999, out, err + b"\n[verif watchdog timeout]", argv)
 
 
 def write_seeds(dirpath):
